@@ -165,7 +165,7 @@ def run(ctx):
     kinds = {}
     for l in gl:
         p = l.split("\t")
-        k = p[0] + ("" if p[5] != "-" else ("-history-must-be-rejected" if p[1].endswith("n") else "-mutated")) \
+        k = p[0] + ("" if p[5] != "-" else ("-history-must-be-rejected" if p[1].endswith("n") else "-near-valid" if p[1].endswith("v") else "-mutated")) \
             + ("" if p[4] == "1" or p[5] == "-" else "-outside-guards")
         kinds[k] = kinds.get(k, 0) + 1
     ctx.notes["generated"] = {"cases": len(gl), "by_kind": kinds, "info": info}
